@@ -35,6 +35,7 @@ theorem parseExpr_neg {min : Nat} {rest rest' : List Tok} {e : Tree}
 
 theorem parseExpr_rparen (min : Nat) (rest : List Tok) : parseExpr min (.rparen :: rest) = none := by
   rw [parseExpr.eq_def]
+  simp [cmpOf]
 
 /-! ## `parseLoop` -/
 
@@ -52,24 +53,42 @@ theorem parseLoop_stop_low {min : Nat} {fb : Option Nat} {lhs : Tree} {t : Tok} 
   rw [parseLoop.eq_def]
   simp [h, hL]
 
+/-- The list form `in ( a , …` does not apply: what follows the operator is not a parenthesis
+in which a comma ends the first expression. -/
+def NoInList (o : BinOp) (rest : List Tok) : Prop :=
+  ∀ rest0, inListOf o rest = some rest0 → ∀ a rest1, parseExpr 0 rest0 ≠ some (a, .comma :: rest1)
+
+theorem noInList_of_ne {o : BinOp} (h : o ≠ .in_) (rest : List Tok) : NoInList o rest := by
+  intro rest0 h0
+  cases o <;> simp [inListOf] at h0 <;> exact absurd rfl h
+
+theorem inListOf_length {o : BinOp} {rest rest0 : List Tok} (h : inListOf o rest = some rest0) :
+    o = .in_ ∧ rest = .lparen :: rest0 := by
+  unfold inListOf at h
+  split at h
+  · injection h with h; subst h; exact ⟨rfl, rfl⟩
+  · cases h
+
 theorem parseLoop_bin {min : Nat} {fb : Option Nat} {lhs r : Tree} {o : BinOp} {rest rest' : List Tok}
-    (hm : ¬ lvl o < min) (hf : ¬ fb = some (lvl o))
+    (hm : ¬ lvl o < min) (hf : ¬ fb = some (lvl o)) (hno : NoInList o rest)
     (h : parseExpr (rhsMin o) rest = some (r, rest')) (hl : rest'.length ≤ rest.length) :
     parseLoop min fb lhs (tokOf o :: rest) = parseLoop min (nextForbid o) (.bin o lhs r) rest' := by
   rw [parseLoop.eq_def]
-  cases o <;> simp [tokOf, opLevel, binOf, hm, hf, h, hl]
+  cases hi : inListOf o rest with
+  | none => cases o <;> simp [tokOf, opLevel, binOf, hm, hf, h, hl, hi]
+  | some rest0 =>
+    obtain ⟨ho, hr⟩ := inListOf_length hi
+    subst ho
+    have hno' := hno rest0 hi
+    have hlen : rest0.length ≤ rest.length := by subst hr; simp
+    simp only [tokOf, opLevel, binOf, hm, if_false, hf, hi, hlen, if_true]
+    simp [h, hl]
 
 theorem parseLoop_bin_forbidden {min : Nat} {fb : Option Nat} {lhs : Tree} {o : BinOp} {rest : List Tok}
     (hm : ¬ lvl o < min) (hf : fb = some (lvl o)) :
     parseLoop min fb lhs (tokOf o :: rest) = none := by
   rw [parseLoop.eq_def]
   cases o <;> simp [tokOf, opLevel, binOf, hm, hf]
-
-theorem parseLoop_bin_fail {min : Nat} {fb : Option Nat} {lhs : Tree} {o : BinOp} {rest : List Tok}
-    (hm : ¬ lvl o < min) (h : parseExpr (rhsMin o) rest = none) :
-    parseLoop min fb lhs (tokOf o :: rest) = none := by
-  rw [parseLoop.eq_def]
-  cases o <;> simp [tokOf, opLevel, binOf, hm, h]
 
 theorem parseLoop_between {min : Nat} {fb : Option Nat} {lhs lo hi : Tree} {rest rest1 rest2 : List Tok}
     (hm : ¬ betweenLvl < min)
@@ -104,25 +123,49 @@ theorem parseLoop_call_nil {min : Nat} {fb : Option Nat} {lhs : Tree} {rest1 : L
     (hm : ¬ parenLvl < min) :
     parseLoop min fb lhs (.lparen :: .rparen :: rest1) = parseLoop min none (.call lhs .nil) rest1 := by
   rw [parseLoop.eq_def]
-  simp [opLevel, binOf, hm, parseExpr_rparen]
+  simp [opLevel, binOf, hm, parseExpr_rparen, namedStart]
 
 theorem parseLoop_call {min : Nat} {fb : Option Nat} {lhs a : Tree} {as : Args} {rest rest1 rest2 : List Tok}
-    (hm : ¬ parenLvl < min)
+    (hm : ¬ parenLvl < min) (hn : namedStart rest = none)
     (h1 : parseExpr 0 rest = some (a, rest1)) (hl1 : rest1.length ≤ rest.length)
-    (h2 : parseArgsTail rest1 = some (as, rest2)) (hl2 : rest2.length ≤ rest.length) :
+    (h2 : parseArgsTail .rparen rest1 = some (as, rest2)) (hl2 : rest2.length ≤ rest.length) :
     parseLoop min fb lhs (.lparen :: rest) = parseLoop min none (.call lhs (.cons a as)) rest2 := by
   rw [parseLoop.eq_def]
-  simp [opLevel, binOf, hm, h1, hl1, h2, hl2]
+  simp [opLevel, binOf, hm, hn, h1, hl1, h2, hl2]
+
+theorem parseLoop_callNamed {min : Nat} {fb : Option Nat} {lhs v : Tree} {n : Nat} {bs : Binds}
+    {rest0 rest1 rest2 : List Tok} (hm : ¬ parenLvl < min)
+    (h1 : parseExpr 0 rest0 = some (v, rest1)) (hl1 : rest1.length ≤ rest0.length)
+    (h2 : parseBindsTail .colon .rparen rest1 = some (bs, rest2)) (hl2 : rest2.length ≤ rest0.length) :
+    parseLoop min fb lhs (.lparen :: .name n :: .colon :: rest0) =
+      parseLoop min none (.callNamed lhs n v bs) rest2 := by
+  rw [parseLoop.eq_def]
+  have hlt : ¬ (rest0.length + 1 + 1 < rest0.length) := by omega
+  simp [opLevel, binOf, hm, namedStart, h1, hl1, h2, hl2, hlt]
+
+theorem parseLoop_inList {min : Nat} {fb : Option Nat} {lhs a b : Tree} {more : Args}
+    {rest0 rest1 rest2 : List Tok} (hm : ¬ lvl .in_ < min) (hf : ¬ fb = some (lvl .in_))
+    (h1 : parseExpr 0 rest0 = some (a, .comma :: rest1)) (hl1 : rest1.length + 1 ≤ rest0.length)
+    (h2 : parseArgsTail .rparen (.comma :: rest1) = some (.cons b more, rest2))
+    (hl2 : rest2.length ≤ rest0.length) :
+    parseLoop min fb lhs (.kin :: .lparen :: rest0) =
+      parseLoop min (nextForbid .in_) (.inList lhs a b more) rest2 := by
+  rw [parseLoop.eq_def]
+  have hm' : ¬ Gen.Prec.level Gen.Prec.Sym.IN < min := hm
+  have hf' : ¬ fb = some (Gen.Prec.level Gen.Prec.Sym.IN) := hf
+  simp [opLevel, binOf, lvl, BinOp.sym, hm', hf', inListOf, h1, hl1, h2, hl2]
 
 /-! ## `parseArgsTail` -/
 
-theorem parseArgsTail_nil (rest : List Tok) : parseArgsTail (.rparen :: rest) = some (.nil, rest) := by
+theorem parseArgsTail_nil {close : Tok} (hc : close ≠ .comma) (rest : List Tok) :
+    parseArgsTail close (close :: rest) = some (.nil, rest) := by
   rw [parseArgsTail.eq_def]
+  cases close <;> simp_all
 
-theorem parseArgsTail_cons {a : Tree} {as : Args} {rest rest1 rest2 : List Tok}
+theorem parseArgsTail_cons {close : Tok} {a : Tree} {as : Args} {rest rest1 rest2 : List Tok}
     (h1 : parseExpr 0 rest = some (a, rest1)) (hl1 : rest1.length ≤ rest.length)
-    (h2 : parseArgsTail rest1 = some (as, rest2)) :
-    parseArgsTail (.comma :: rest) = some (.cons a as, rest2) := by
+    (h2 : parseArgsTail close rest1 = some (as, rest2)) :
+    parseArgsTail close (.comma :: rest) = some (.cons a as, rest2) := by
   rw [parseArgsTail.eq_def]
   simp [h1, hl1, h2]
 
